@@ -16,6 +16,7 @@ harness/pygen_c13.py for the inner blocks.
     propagate_and_optimize_mode     whole body (template of pygen_c13) incl. the list of amplifiers whose designed gain is
                                     recorded and written back at the top of every (baud, offset) iteration   -> g_restores_gains
     compute_path_dsjctn             split simple / synchronised requests; the vector order `dlist = dis.disjunctions_req.copy()`;
+                                    step 3 (pruning loop over concerned_d_id only) literally;
                                     the final loop: each non-synchronised request gets compute_constrained_path(network, req)
                                     of its own (no value carried from one request to the next)               -> g_route_memo
     explicit_path                   whole body: the explicit route is built in a NEW list ([source] + oms0.el_list ...), the OMS
@@ -176,6 +177,26 @@ pathreqlist_disjt = [e for e in pathreqlist if e.request_id in global_disjunctio
 DSJ_VECTOR = """
 dlist = dis.disjunctions_req.copy()
 """
+DSJ_STEP3 = """
+for pathreq in pathreqlist_disjt:
+    concerned_d_id = [d.disjunction_id for d in disjunctions_list if pathreq.request_id in d.disjunctions_req]
+    candidate_paths = simple_rqs[pathreq.request_id]
+    for pth in candidate_paths:
+        iscandidate = 0
+        for sol in concerned_d_id:
+            test = 1
+            for cndt in candidates[sol]:
+                if pth in cndt:
+                    if allpaths[id(cndt[cndt.index(pth)])].req.request_id == pathreq.request_id:
+                        test = 0
+                        break
+            iscandidate += test
+        if iscandidate != 0:
+            for this_id in concerned_d_id:
+                for cndt in candidates[this_id]:
+                    if pth in cndt:
+                        candidates[this_id].remove(cndt)
+"""
 DSJ_TAIL = """
 for req in pathreqlist:
     req.nodes_list.append(req.destination)
@@ -192,6 +213,7 @@ def gen_dsjctn(tree, out):
     fn = find(tree, 'compute_path_dsjctn')
     find_block(fn, DSJ_HEAD, 'compute_path_dsjctn: simple / synchronised split')
     find_block(fn, DSJ_VECTOR, 'compute_path_dsjctn: order of the requests of a synchronization vector')
+    find_block(fn, DSJ_STEP3, 'compute_path_dsjctn: step 3 (a non-candidate route is pruned from the vectors of ITS request only)')
     find_block(fn, DSJ_TAIL, 'compute_path_dsjctn: final loop')
     body = strip_doc(fn.body)
     if src(body[-1]) != 'return path_res_list' or not isinstance(body[-2], ast.For) or src(body[-2].iter) != 'pathreqlist':
@@ -215,7 +237,9 @@ def gen_dsjctn(tree, out):
         raise Unsupported('compute_path_dsjctn: compute_constrained_path must be called once, in the final loop')
     out.append('(* gnpy/topology/request.py: compute_path_dsjctn.  Matched: requests split by membership of a synchronization vector;')
     out.append('   the requests of a vector are taken in the order of the vector (dis.disjunctions_req.copy()) and the vector loop never')
-    out.append('   looks at the batch list; final loop: every non-synchronised request gets compute_constrained_path(network, req),')
+    out.append('   looks at the batch list; step 3 prunes a route that is no candidate for a request from the candidates of the vectors')
+    out.append('   that request belongs to (concerned_d_id), never from another vector;')
+    out.append('   final loop: every non-synchronised request gets compute_constrained_path(network, req),')
     out.append('   the only call, nothing kept from one request to the next. *)')
     out.append('Definition g_route_memo : bool := false.\n')
 
